@@ -476,3 +476,57 @@ def R11M(body, ctx):
         body = body[:s] + new + body[k:]
         n += 1
     return body, n
+
+
+def P_FOR_OWNED(body, ctx):
+    """A parameter `P: impl IntoIterator<Item = T>` (T an owned type) whose only use is `for X in P { B }`
+    -> `P: Vec<T>` and `for X in it_: P { B }`.
+    The function consumes the iterable once, front to back; a Vec is the finite sequence of items any such
+    iterable yields (iterables that never end or have side effects are outside the contract; cf. P_FOR_REFS of
+    rules_path.py for `Item = &T`). X and B are re-emitted unchanged; the loop keeps being a `for` loop over the
+    items in order, `it_` only names Verus' ghost iterator for the loop invariants of the unit."""
+    n = 0
+    rxp = re.compile(r'(?<![A-Za-z0-9_])(%s)\s*:\s*impl\s+IntoIterator\s*<\s*Item\s*=\s*' % IDENT)
+    while True:
+        m = rxp.search(ctx['params'])
+        if not m:
+            break
+        p = m.group(1)
+        # the item type runs to the matching `>` of `IntoIterator<`
+        depth, k = 1, m.end()
+        params = ctx['params']
+        while k < len(params) and depth:
+            c = params[k]
+            if c == '<':
+                depth += 1
+            elif c == '>' and params[k - 1] != '-':
+                depth -= 1
+            k += 1
+        if depth:
+            raise LostAnchor('P_FOR_OWNED: unbalanced `<` in the parameter list')
+        item = params[m.end():k - 1].strip()
+        if item.startswith('&'):
+            raise LostAnchor('P_FOR_OWNED: item type `%s` is a reference (use P_FOR_REFS)' % item)
+        mask = code_mask(body)
+        uses = _ident_uses(body, p)
+        mf = None
+        for f in re.finditer(r'(?<![A-Za-z0-9_.])for\s+(.+?)\s+in\s+' + re.escape(p) + r'\s*\{', body):
+            if mask[f.start()]:
+                mf = f
+                break
+        if not mf or len(uses) != 1:
+            raise LostAnchor('P_FOR_OWNED: parameter `%s` is not consumed by exactly one `for X in %s`' % (p, p))
+        body = body[:mf.start()] + 'for %s in it_: %s {' % (mf.group(1), p) + body[mf.end():]
+        ctx['params'] = params[:m.start()] + '%s: Vec<%s>' % (p, item) + params[k:]
+        n += 1
+    return body, n
+
+
+def R_WRAP(body, ctx):
+    """Type names `HashableHashSet` / `HashableHashMap` in a body -> `HashSet` / `HashMap` (assumption A-NET-WRAP of
+    prelude/net.rs: the wrappers are newtypes that deref to the std collections; the `/*@item` directives map the
+    field types the same way). Arguments of the calls are kept (`with_hasher(crate::stable::build_hasher())`)."""
+    from rules import _ident_replace
+    body, a = _ident_replace(body, 'HashableHashSet', 'HashSet')
+    body, b = _ident_replace(body, 'HashableHashMap', 'HashMap')
+    return body, a + b
